@@ -71,6 +71,10 @@ func genDelays(r *driver.Rand) []int {
 	for i := range out {
 		out[i] = driver.Pick(r, 0, 0, 1, 5, 20)
 	}
+	if r.Chance(1, 6) {
+		// a long pause: seconds or minutes of virtual time cost nothing
+		out[r.Intn(n)] = driver.Pick(r, 1000, 1500, 10000, 61000)
+	}
 	return out
 }
 
@@ -98,7 +102,7 @@ func genEnvPaces(r *driver.Rand, p *driver.Plan, producers, consumers int) {
 	for i := 0; i < consumers; i++ {
 		cp := driver.ConsumerPlan{Abandon: -1, DelaysMs: genDelays(r)}
 		if r.Chance(1, 5) {
-			cp.StartMs = driver.Pick(r, 1, 10, 50, 200)
+			cp.StartMs = driver.Pick(r, 1, 10, 50, 200, 1500, 61000)
 		}
 		p.Consumers = append(p.Consumers, cp)
 	}
